@@ -22,29 +22,34 @@ class Fault:
 
 
 class _Stream(httpx.AsyncByteStream):
-    def __init__(self, chunks, fail_after=None):
-        self.chunks, self.fail_after = chunks, fail_after
+    def __init__(self, chunks, fail_after=None, protocol=False):
+        self.chunks, self.fail_after, self.protocol = chunks, fail_after, protocol
+
+    def _err(self, msg):
+        if self.protocol:
+            return httpx.RemoteProtocolError('peer closed connection without sending complete message body ' + msg)
+        return httpx.ReadError('connection dropped ' + msg)
 
     async def __aiter__(self):
         for i, c in enumerate(self.chunks):
             if self.fail_after is not None and i >= self.fail_after:
-                raise httpx.ReadError('connection dropped while reading the response body')
+                raise self._err('while reading the response body')
             yield c
         if self.fail_after is not None and self.fail_after >= len(self.chunks):
-            raise httpx.ReadError('connection dropped at the end of the response body')
+            raise self._err('at the end of the response body')
 
     async def aclose(self):
         pass
 
 
-def _resp(request, status, body=b'', headers=None, chunk=None, fail_after=None):
+def _resp(request, status, body=b'', headers=None, chunk=None, fail_after=None, protocol=False):
     h = {'content-length': str(len(body))}
     h.update(headers or {})
     if chunk:
         chunks = [body[i:i + chunk] for i in range(0, len(body), chunk)]
     else:
         chunks = [body] if body else []
-    return httpx.Response(status, headers=h, stream=_Stream(chunks, fail_after), request=request)
+    return httpx.Response(status, headers=h, stream=_Stream(chunks, fail_after, protocol), request=request)
 
 
 class Unbounded(Exception):
@@ -79,6 +84,9 @@ class BaseFake(httpx.AsyncBaseTransport):
             i += 1
         return b''.join(chunks), True, i
 
+    def on_fault(self, rec):
+        pass
+
     def reset_budget(self, n=200):
         self.budget = n
 
@@ -92,9 +100,14 @@ class BaseFake(httpx.AsyncBaseTransport):
         rec = Recorded(method=request.method, target=request.url.raw_path, headers=[(k.lower(), v) for k, v in request.headers.raw],
                        body=None, host=request.url.netloc, scheme=request.url.scheme, complete=False, body_chunks=0)
         fault = self.fault_fn(idx, rec) if self.fault_fn else None
+        if fault is not None and fault.kind is not None:
+            self.on_fault(rec)
         if fault is not None and fault.kind == 'connect-error':
             self.requests.append(rec)
             raise httpx.ConnectError('connection refused')
+        if fault is not None and fault.kind == 'protocol-error':
+            self.requests.append(rec)
+            raise httpx.RemoteProtocolError('server disconnected without sending a response')
         limit = fault.kw['k'] if fault is not None and fault.kind == 'fail-after-request-chunks' else None
         body, complete, nchunks = await self._read(request, limit)
         rec.body, rec.complete, rec.body_chunks = body, complete, nchunks
@@ -107,7 +120,8 @@ class BaseFake(httpx.AsyncBaseTransport):
         if fault is not None and fault.kind == 'drop-response-after':
             body = b''.join([c async for c in _Stream(resp.stream.chunks)])
             chunk = self.body_chunk or max(1, len(body))
-            return _resp(request, resp.status_code, body, dict(resp.headers), chunk=chunk, fail_after=fault.kw['k'])
+            return _resp(request, resp.status_code, body, dict(resp.headers), chunk=chunk, fail_after=fault.kw['k'],
+                         protocol=fault.kw.get('protocol', False))
         return resp
 
 
@@ -196,6 +210,13 @@ class FakeB2(BaseFake):
     def expire_tokens(self):
         self.valid_tokens.clear()
         self.upload_tokens.clear()
+
+    def on_fault(self, rec):
+        # B2: after any failure of an upload the upload URL / token pair must not be used again
+        if rec.target.split(b'?')[0].endswith(b'/b2_upload_file'):
+            for k, v in rec.headers:
+                if k == b'authorization':
+                    self.upload_tokens.discard(v.decode('latin-1'))
 
     async def serve(self, request, rec):
         raw = rec.target
